@@ -3,6 +3,8 @@ package processorqueue
 import (
 	clock "lunar/toolkit-core/clock"
 	context_manager "lunar/toolkit-core/context-manager"
+	"lunar/toolkit-core/verifhook"
+	"strconv"
 	"sync"
 	"sync/atomic"
 	"time"
@@ -108,6 +110,9 @@ func (watcher *RequestWatcher) manageTTLs() {
 			waitDuration = 0
 		}
 
+		if verifhook.Enabled {
+			verifhook.Emit("queue.watcher-wait", strconv.FormatInt(int64(waitDuration), 10))
+		}
 		select {
 		case <-time.After(waitDuration):
 			watcher.notifyExpiredRequests()
